@@ -212,5 +212,5 @@ def add_ext_obligations(ck, lmax=3, data_clauses=True):
             if bv:
                 post(it, s, "x.write.returns_cursor", Z(bv[-1].args[1]) == Z(s.mem[wptr.obj].fields["global_index"]), fn["_line"])
     ck.add([o for o in it.obls if o.kind in ("post", "pre")])
-    ck.assumptions += ["numpy arrays handed to the extension are C-contiguous with shape (N, num_subchannels) (established by DigitalRFWriter._cast_input_array, assumed here); "
+    ck.assumptions += ["numpy arrays handed to the extension are C-contiguous with shape (N, num_subchannels) (established by DigitalRFWriter._cast_input_array: checks/cast_common.py, enumerated over writer types and input layouts); "
                        "PyArg_ParseTuple / PyCapsule_GetPointer / Py_BuildValue transport values unchanged"]
